@@ -196,6 +196,7 @@ var staleKinds = []struct {
 	{"held-1e-7", []uint64{BW / 10}, -6},
 	{"held-3-words", []uint64{BW - 1, BW - 1, BW - 1}, 25},
 	{"held-5e5", []uint64{BW / 2}, 6},
+	{"held-0.5", []uint64{BW / 2}, 0}, // stale exponent 0: indistinguishable from a clean zero by its exponent alone
 }
 
 // staleSpecials returns ±0 and ±Inf in every non-trivial history (variables that held a finite value before).
